@@ -120,7 +120,6 @@ pub open spec fn trim_end_of(s: Seq<char>, c: char) -> Seq<char>
 pub open spec fn trim_start_of(s: Seq<char>, c: char) -> Seq<char>
     decreases s.len()
 { if s.len() > 0 && s[0] == c { trim_start_of(s.skip(1), c) } else { s } }
-pub uninterp spec fn is_uws(c: char) -> bool;
 pub open spec fn trim_end_ws(s: Seq<char>) -> Seq<char>
     decreases s.len()
 { if s.len() > 0 && is_uws(s.last()) { trim_end_ws(s.drop_last()) } else { s } }
